@@ -243,10 +243,13 @@ def class_mass(s, events):
         a = ev['affiliation']
         if a is None:
             continue
+        tot = float(a.shape[-1])
         if s.saliency is not None:
             a = a * s.saliency[..., None, :]
+            tot = np.sum(s.saliency, axis=-1)[..., None]       # relative to the weight there is to share (the level of the saliency is free)
         m = a.sum(axis=-1)
-        mn = float(m.min()) / max(1, a.shape[-1])
+        with np.errstate(all='ignore'):
+            mn = float(np.nan_to_num(m / np.maximum(tot, np.finfo(float).tiny), nan=0.0).min())
         if mn < worst:
             worst = mn
         if mn < 1e-12 and first_bad is None:
